@@ -297,6 +297,14 @@ def concStep (s : ConcState) : List String → ConcState × String
       let r := finishAll s.cfg s.reqs 0 s.shared []
       ({ s with sh := some r.1, reqs := r.2 },
        (if r.2.isEmpty then "-" else String.intercalate " | " (r.2.map showLocal)) ++ " ;; " ++ showKeys r.1)
+  | ["timeoutmw"] =>
+    -- a case of its own (go/harness/engine_conc_timeout.go): a handler that overruns the deadline of handlers.Timeout
+    -- and a quick request served meanwhile, with plain handlers and with the static file handlers.  Whatever the
+    -- middleware does about the deadline, every handler's bytes reach the response of ITS request: the slow request
+    -- answers 200 with its complete body (the 504 comes after the commit and is dropped), the quick one its own body —
+    -- also after the slow handler has finished.
+    let one := "slow=200:736c6f772d726573756c74 fast=200:66617374 fast-afterwards=200:66617374"
+    (s, s!"plain {one} | static {one}")
   | _ => (s, "bad-op")
 
 def concEngine : Engine := { σ := ConcState, init := {}, step := concStep }
